@@ -37,9 +37,11 @@ fn kx_mvec_try_reclaim() {
     }
     // sole empty owner can always take the whole allocation back (C08 / C18 "in particular")
     if g.len == 0 && n <= g.vcap { assert!(r); }
-    // the exact decision lemmas/recycle.rs reads (`reserve_step`): room behind the view, or the
-    // whole allocation is large enough and the bytes can be moved to the front without overlap
-    assert!(r == (n <= g.cap - g.len || (g.cap - g.len + g.off >= n && g.off >= g.len)));
+    // the decision lemmas/recycle.rs reads (`reserve_step`): room behind the view, or the whole
+    // allocation is large enough and the bytes can be moved to the front without overlap => the
+    // buffer MUST be reclaimed.  (Only this direction: reclaiming in more cases would not break
+    // any property, so it is not demanded.)
+    if n <= g.cap - g.len || (g.cap - g.len + g.off >= n && g.off >= g.len) { assert!(r); }
     kani::cover!(r && g.off > 0 && n > g.cap - g.len, "reclaimed by moving to the front");
     kani::cover!(!r);
     drop(b);
@@ -65,11 +67,12 @@ fn kx_marc_unique_try_reclaim() {
         assert!(same_handle(&b, &g, data0) && block_intact(&g) && count(&g) == 1);
     }
     if g.len == 0 && n <= g.vcap { assert!(r); }
-    // the exact decision lemmas/recycle.rs reads (`reserve_step`)
+    // the decision lemmas/recycle.rs reads (`reserve_step`), in the direction the lemma needs:
+    // under these conditions the buffer MUST be reclaimed (more reclaiming is not a violation)
     let want = g.len.checked_add(n);
     let expect = n <= g.cap - g.len
         || match want { Some(nc) => g.vcap - g.off >= nc || (g.vcap >= nc && g.off >= g.len), None => false };
-    assert!(r == expect);
+    if expect { assert!(r); }
     kani::cover!(r && g.off == g.len && g.len > 0 && b.ptr.as_ptr() as usize == g.base as usize, "offset == len reclaims by moving");
     kani::cover!(r && n > g.cap - g.len && b.ptr.as_ptr() as usize == g.base as usize && g.off > 0, "reclaimed by moving to the front");
     kani::cover!(r && n > g.cap - g.len && b.ptr.as_ptr() as usize != g.base as usize, "reclaimed in place");
@@ -135,8 +138,9 @@ fn kx_marc_unique_reserve() {
     let nc = g.len + n;
     if n <= g.cap - g.len || g.vcap - g.off >= nc || (g.vcap >= nc && g.off >= g.len) {
         assert!(vb == g.base as usize && sh.vec.capacity() == g.vcap);
-    } else {
-        assert!(vb != g.base as usize && sh.vec.capacity() >= 2 * g.vcap && sh.vec.capacity() >= g.off + nc);
+    }
+    if vb != g.base as usize {
+        assert!(sh.vec.capacity() >= 2 * g.vcap && sh.vec.capacity() >= g.off + nc);
     }
     kani::cover!(vb != g.base as usize, "reallocated");
     drop(b);
